@@ -90,6 +90,25 @@ def opUnjson (env : Env) (data : Bytes) : String :=
     "\t".intercalate [fU, fV, fS, fG, fJ, fR, fRP]
   | _ => "\t".intercalate [fU, "-", "-", "-", "-", "-", "-"]
 
+/-- op `mk`: one call of the public constructor `expr.Expr(left, op, right...)` on arbitrary argument values, then
+    Validate and every consumer of the result (same fields as `uj`) -/
+def opMk (env : Env) (opn : String) (args : List String) : String :=
+  match opn.toNat? >>= Op.ofNum, args.mapM parseCanonNode with
+  | some o, some (left :: rights) =>
+    let u := mkExpr left o rights
+    let fU := outStr canonExpr u
+    (match u with
+     | .ok e =>
+       let fV := if validateExpr e then "1" else "0"
+       let fS := outStr ptStr (e.string env.isPrint)
+       let fG := "ok:" ++ ptStr (outPT (e.goString env.isPrint))
+       let fJ := outStr toHex (marshalExpr e)
+       let fR := outStr toHex (render pgFns e)
+       let fRP := outStr (fun (x : Bytes × List Prim) => toHex x.1 ++ "|" ++ canonParams x.2) (renderParam pgFns e)
+       "\t".intercalate [fU, fV, fS, fG, fJ, fR, fRP]
+     | _ => "\t".intercalate [fU, "-", "-", "-", "-", "-", "-"])
+  | _, _ => "bad-input"
+
 /-- the tracing render function of the `render` op: records operator and both operand texts -/
 def traceFn (o : Op) : RenderFn := fun l r =>
   .ok (b "<" ++ fmtInt o.num ++ b "|" ++ l ++ b "|" ++ r ++ b ">")
@@ -173,6 +192,7 @@ def handle (env : Env) (line : String) : String :=
   | ["lex", s] => opLex env (hexOr s)
   | ["uj", d] => opUnjson env (hexOr d)
   | ["render", desc, tree] => opRender desc tree
+  | "mk" :: opn :: args => opMk env opn args
   | "spec" :: name :: args => opSpec env name args
   | ["ping"] => "pong"
   | _ => "bad-op"
